@@ -28,3 +28,5 @@ int spf (int n) { string s = repeat_string ("x", n); return strlen (sprintf ("%s
 int crec () { mixed e = catch (crec ()); if (e) VL ("after-catch " + kind (e)); return 1; }
 int c1rec2 () { return crec (); }
 int bufsz (int n) { return sizeof (allocate_buffer (n)); }
+// c01's observation: sort_array by function name hashes the name once per comparison and executes no instruction
+int sortname (int n, int len) { mixed *a = allocate (n); string f = repeat_string ("f", len); int t = time_expression { sort_array (a, f, this_object ()); }; return t; }
